@@ -276,6 +276,35 @@ pub fn mul_column_boundary(r: u128) -> Option<(u128, u128)> {
 
 const DEP_TABLE: [usize; 16] = [0, 0, 0, 0, 1, 2, 3, 4, 4, 5, 5, 6, 6, 7, 8, 8];
 
+/// the boundary block of the 32-bit target tier: 20 layouts (both signednesses, every width, fractions 0 and w/2)
+fn mini_layouts() -> Vec<L> {
+    let mut v = Vec::new();
+    for signed in [true, false] {
+        for w in [8u32, 16, 32, 64, 128] {
+            for f in [0, w / 2] {
+                v.push(L::new(signed, w, f));
+            }
+        }
+    }
+    v
+}
+fn mini_ops(prop: &str) -> &'static [u16] {
+    match prop {
+        "C07" => &[REM, REM_EUCLID, REM_EUCLID_INT],
+        _ => &[MUL, DIV, DIV_INT],
+    }
+}
+const MINI_B: usize = 8;
+/// boundary operands of a layout: 0, +-1 ulp, MIN, MAX, +-1.0 (or the half-width bit), the minimum shifted down by the
+/// fraction width (the dividend whose shifted form is the double-width minimum)
+fn mini_operand(l: L, k: usize) -> u128 {
+    let m = l.mask();
+    let top = 1u128 << (l.w - 1);
+    let one = if l.f < l.w { 1u128 << l.f } else { 1u128 << (l.w / 2) };
+    let min_shr = if l.f < l.w { m & !((1u128 << (l.w - 1 - l.f)) - 1) } else { top };
+    [0, 1, m, top, top - 1, one, one.wrapping_neg() & m, min_shr][k % MINI_B] & m
+}
+
 impl Engine for Arith {
     fn name(&self) -> &'static str {
         "arith"
@@ -375,6 +404,21 @@ impl Engine for Arith {
             "C06" => 6 * (18 * 256 + 34 * 65536),
             _ => 0,
         }
+    }
+    fn mini_len(&self, prop: &str) -> u64 {
+        match prop {
+            "C02" | "C07" => mini_layouts().len() as u64 * mini_ops(prop).len() as u64 * (MINI_B * MINI_B) as u64,
+            _ => 0,
+        }
+    }
+    fn mini_case(&self, prop: &str, i: u64) -> Case {
+        let lays = mini_layouts();
+        let ops = mini_ops(prop);
+        let nb = (MINI_B * MINI_B) as u64;
+        let (ab, r) = (i % nb, i / nb);
+        let l = lays[(r % lays.len() as u64) as usize];
+        let op = ops[(r / lays.len() as u64) as usize % ops.len()];
+        Case { op, lay: l.idx() as u16, a: mini_operand(l, (ab / MINI_B as u64) as usize), b: mini_operand(l, (ab % MINI_B as u64) as usize), ..Case::default() }
     }
     fn exh_case(&self, prop: &str, _tier: Tier, i: u64) -> Case {
         let lay8 = |k: u64| -> u16 { if k < 9 { k as u16 } else { (253 + k - 9) as u16 } };
